@@ -179,6 +179,41 @@ pub async fn dump_state<TC: Configuration>(db: &Db) -> String {
     format!("{} {} {}|{}", a.latest_epoch, a.num_nodes, ts.trim_end(), ss)
 }
 
+/// the row <-> record path of column-oriented data layers (the MySQL example): every stored record, taken apart into
+/// the columns such a layer keeps and rebuilt with the crate's `DbRecord::build_*` helpers, must be the record itself
+pub async fn rowstore_roundtrip(db: &Db) -> Vec<String> {
+    let mut fails = vec![];
+    for r in db.batch_get_all_direct().await.unwrap() {
+        match &r {
+            DbRecord::TreeNode(n) => {
+                let l = &n.latest_node;
+                let p = n.previous_node.as_ref();
+                let back = DbRecord::build_tree_node_with_previous_value(
+                    n.label.label_val, n.label.label_len, l.last_epoch, l.min_descendant_epoch, l.parent.label_val, l.parent.label_len,
+                    l.node_type as u8, l.left_child, l.right_child, l.hash.0,
+                    p.map(|x| x.last_epoch), p.map(|x| x.min_descendant_epoch), p.map(|x| x.parent.label_val), p.map(|x| x.parent.label_len),
+                    p.map(|x| x.node_type as u8), p.and_then(|x| x.left_child), p.and_then(|x| x.right_child), p.map(|x| x.hash.0));
+                if back != *n {
+                    fails.push(format!("C04 a tree-node record rebuilt from its columns differs from the stored one (node {}): audits served by a column-oriented data layer would walk other epochs", fmt_nl(&n.label)));
+                    break;
+                }
+            }
+            DbRecord::Azks(a) => {
+                if DbRecord::build_azks(a.latest_epoch, a.num_nodes) != *a {
+                    fails.push("C04 the epoch record rebuilt from its columns differs from the stored one".to_string());
+                }
+            }
+            DbRecord::ValueState(v) => {
+                if DbRecord::build_user_state(v.username.0.clone(), v.value.0.clone(), v.version, v.label.label_len, v.label.label_val, v.epoch) != *v {
+                    fails.push("C04 a value state rebuilt from its columns differs from the stored one".to_string());
+                    break;
+                }
+            }
+        }
+    }
+    fails
+}
+
 pub fn label_universe(r: &mut Rng, n: usize) -> Vec<Vec<u8>> {
     let mut v: Vec<Vec<u8>> = vec![vec![], vec![0], vec![1], b"a".to_vec(), b"ab".to_vec(), b"abc".to_vec(), vec![0xFF; 330], b"user".to_vec()];
     while v.len() < n {
@@ -515,6 +550,10 @@ pub async fn one_history<TC: Configuration>(cx: &mut Cx, r: &mut Rng, o: &RunOpt
         cx.emit(format!("pub {} {}", b.len(), b.iter().map(|(l, v)| format!("{} {}", hb(l), hb(v))).collect::<Vec<_>>().join(" ")), match &res { Ok(EpochHash(e, h)) => format!("ok {} {}", e, hx(h)), Err(_) => "err O".into() });
         cx.emit("state".into(), dump_state::<TC>(&db).await);
     }
+    for f in rowstore_roundtrip(&db).await {
+        cx.fail(f);
+    }
+    cx.stat("rowstore_roundtrips");
     let _ = dir;
 }
 
